@@ -34,6 +34,7 @@ import (
 type loopCase struct {
 	Segs []struct {
 		Good bool `json:"good"`
+		Kw   bool `json:"kw"`
 	} `json:"segs"`
 	Lead   int    `json:"lead"`
 	Dbl    bool   `json:"dbl"`
@@ -122,11 +123,7 @@ func main() {
 			var sb strings.Builder
 			sb.WriteString(strings.Repeat("; ", lc.Lead))
 			for i, s := range lc.Segs {
-				if s.Good {
-					sb.WriteString(good[rng.Intn(len(good))].SQL)
-				} else {
-					sb.WriteString(bad[rng.Intn(len(bad))].SQL)
-				}
+				sb.WriteString(pick(s.Good, s.Kw).SQL)
 				if i < len(lc.Segs)-1 {
 					if lc.Dbl {
 						sb.WriteString(";;\n")
@@ -179,6 +176,21 @@ func main() {
 	batches(tier)
 	run.Exhaustive = true
 	run.Finish()
+}
+
+func pick(wantGood, wantKw bool) stmts.Stmt {
+	pool := bad
+	if wantGood {
+		pool = good
+	}
+	for tries := 0; tries < 10000; tries++ {
+		st := pool[rng.Intn(len(pool))]
+		if st.KwStart == wantKw {
+			return st
+		}
+	}
+	core.Fatalf("no segment of class good=%v kw=%v in the pools", wantGood, wantKw)
+	return stmts.Stmt{}
 }
 
 // agree runs one input through every entry point.
